@@ -1,6 +1,7 @@
 \* exhaustive only: four sources out of the quick list (210 scenarios), every merge order
 CONSTANTS NSrc = 4  NLab = 3  Fissile = {1, 2}  MaxLevel = 8
 CONSTANT SrcList <- ListQuick
+CONSTANT IdOf <- IdOf3
 INIT Init
 NEXT Next
 CONSTRAINT Bound
